@@ -111,7 +111,8 @@ def dsubTail (c : Cfg) (s : St) (d a : Addr) (val : Val) (w : Int) (nonce : Nat)
 
 theorem teDelegationSub_cases (c : Cfg) (s : St) (d a : Addr) (value : Int) (nonce : Nat) :
     (teDelegationSub c s d a value nonce).1 = s ∨
-    ∃ val w, get s.vals a = some val ∧ (teDelegationSub c s d a value nonce).1 = dsubTail c s d a val w nonce := by
+    ∃ val df, get s.vals a = some val ∧ findDlg val.dlgs d = some df ∧ 0 < dsubAmt c val df value ∧
+      (teDelegationSub c s d a value nonce).1 = dsubTail c s d a val (dsubAmt c val df value) nonce := by
   unfold teDelegationSub
   split
   · exact Or.inl rfl
@@ -120,9 +121,9 @@ theorem teDelegationSub_cases (c : Cfg) (s : St) (d a : Addr) (value : Int) (non
     · exact Or.inl rfl
     · rename_i df hdf
       simp only
-      by_cases hw : (if value > df.token then df.token else value) ≤ 0
+      by_cases hw : dsubAmt c val df value ≤ 0
       · rw [if_pos hw]; exact Or.inl rfl
-      · rw [if_neg hw]; exact Or.inr ⟨val, _, hg, rfl⟩
+      · rw [if_neg hw]; exact Or.inr ⟨val, df, hg, hdf, by omega, rfl⟩
 
 theorem dsubTail_inv (c : Cfg) {s : St} (h : Inv s) (d a : Addr) {val : Val} (w : Int) (nonce : Nat)
     (hg : get s.vals a = some val) (hnn : NonNeg (dsubTail c s d a val w nonce)) : Inv (dsubTail c s d a val w nonce) := by
@@ -200,9 +201,9 @@ theorem penalize_inv (c : Cfg) {s : St} (h : Inv s) (a : Addr) (amount : Int) (h
 
 theorem teDelegationSub_inv (c : Cfg) {s : St} (h : Inv s) (d a : Addr) (value : Int) (nonce : Nat)
     (hnn : NonNeg (teDelegationSub c s d a value nonce).1) : Inv (teDelegationSub c s d a value nonce).1 := by
-  rcases teDelegationSub_cases c s d a value nonce with e | ⟨val, w, hg, e⟩
+  rcases teDelegationSub_cases c s d a value nonce with e | ⟨val, df, hg, _, _, e⟩
   · rw [e]; exact h
-  · rw [e] at hnn ⊢; exact dsubTail_inv c h d a w nonce hg hnn
+  · rw [e] at hnn ⊢; exact dsubTail_inv c h d a _ nonce hg hnn
 
 end YouVerif.C08
 
